@@ -6,5 +6,6 @@ pub mod eval;
 pub mod r#gen;
 pub mod io;
 pub mod ir;
+pub mod mutate;
 pub mod print;
 pub mod run;
